@@ -100,6 +100,9 @@ class Site:
         return (self.func, self.line, self.col, self.base, self.kind)
 
 
+_RUNS = {}
+
+
 class Analyzer:
     def __init__(self, cyfunc, cex=False, unroll=2):
         self.f = cyfunc
@@ -1004,6 +1007,22 @@ class Analyzer:
 
     # ---------------- driver
     def run(self):
+        # one analysis per (function node, mode): the checks of several rules ask for the same result
+        key = (id(self.f.node), self.cex, self.unroll)
+        hit = _RUNS.get(key)
+        if hit is not None:
+            if isinstance(hit, Exception):
+                raise hit
+            return hit
+        try:
+            out = self._run()
+        except Unknown as e:
+            _RUNS[key] = e
+            raise
+        _RUNS[key] = out
+        return out
+
+    def _run(self):
         init = []
         for arg in self.f.node.args:
             if str(arg.type).endswith("[:]"):
